@@ -157,7 +157,8 @@ inductive Op
   | getOne (url : Str)
   | contains (url : Str)
   | getHostnames
-  /-- `close()` and construct a new table object on the same path -/
+  /-- construct a new table object on the same path — after `close()`, or without it (the old
+  handle of a killed run is still there): every committed call is in the new object's table -/
   | reopen
   deriving DecidableEq, Repr
 
